@@ -977,7 +977,10 @@ impl<'a, E: quiver_core::effects::Effect> Compiler<'a, E> {
                     // The input value carries the piped value (and its provenance); nested
                     // tuples re-derive their own ripple context from it, so we pass no parent
                     // ripple_context here (which would otherwise have a stale stack offset).
-                    self.compile_chain_with_input(
+                    // A field never short-circuits anything: whatever a match inside it narrowed
+                    // holds only on that match's success path, which ends with the field.
+                    let narrowings_before = self.scopes.last().map(|s| s.narrowings.clone());
+                    let compiled = self.compile_chain_with_input(
                         chain.clone(),
                         None,
                         None,
@@ -985,7 +988,13 @@ impl<'a, E: quiver_core::effects::Effect> Compiler<'a, E> {
                         None,
                         false,
                         field_expected,
-                    )?
+                    )?;
+                    if let Some(saved) = narrowings_before
+                        && let Some(scope) = self.scopes.last_mut()
+                    {
+                        scope.narrowings = saved;
+                    }
+                    compiled
                 }
                 ast::FieldValue::Spread(_) => {
                     unreachable!("Spread should be handled by compile_tuple_with_spread")
